@@ -1,7 +1,13 @@
 pub mod c15;
+pub mod c16;
+pub mod c20;
 
 use crate::PropEntry;
 
 pub fn registry() -> Vec<PropEntry> {
-	vec![PropEntry { id: "C15", level: "exploration", check: c15::check, replay: c15::replay }]
+	vec![
+		PropEntry { id: "C15", level: "exploration", check: c15::check, replay: c15::replay },
+		PropEntry { id: "C16", level: "exploration", check: c16::check, replay: c16::replay },
+		PropEntry { id: "C20", level: "exploration", check: c20::check, replay: c20::replay },
+	]
 }
